@@ -67,6 +67,7 @@ class Ref:
         self.p = [[], []]
         self.a = [[], []]
         self.cap = [(0, 0), (0, 0)]      # (capacity, has storage) of the arrays as last shown by the implementation
+        self.t = []                      # List<Tagged>: (key, tag) pairs
 
     def show(self, kind, v):
         if kind == "a":
@@ -87,6 +88,8 @@ class Ref:
             return self.all()
         if op == "dump" and len(t) == 1:
             return self.all()
+        if op[0] == "t":
+            return self.tagged(t, impl)
         if len(t) < 2 or not isnum(t[1]) or int(t[1]) > 1:
             return "bad-op"
         v = int(t[1])
@@ -237,6 +240,36 @@ class Ref:
         head = f"r={'-' if ret is None else ret} n=? d=?"
         return " | ".join([head] + [self.show(k, u) for k, u in shows])
 
+    def tagged(self, t, impl):
+        """List<Tagged> (operator< on the key only): after sort the keys ascend and the (key, tag) pairs are a permutation;
+        which of the equal keys ends up where is not specified - the reference adopts the implementation's arrangement"""
+        op = t[0]
+        fmt = lambda xs: f"t {len(xs)} " + ("-" if not xs else ",".join(f"{k}:{g}" for k, g in xs))
+        if op in ("tappend", "tprepend") and len(t) == 3 and isint(t[1]) and isint(t[2]):
+            e = (int(t[1]), int(t[2]))
+            self.t = self.t + [e] if op == "tappend" else [e] + self.t
+        elif op == "tclear" and len(t) == 1:
+            self.t = []
+        elif op == "tsort" and len(t) == 1:
+            got = None
+            if impl is not None and impl.startswith("t "):
+                tk = impl.split(" ")
+                try:
+                    got = [] if tk[2] == "-" else [tuple(int(x) for x in p.split(":")) for p in tk[2].split(",")]
+                except (ValueError, IndexError):
+                    got = None
+            if got is None:
+                self.t = sorted(self.t, key=lambda e: e[0])
+            else:
+                if sorted(got) != sorted(self.t):
+                    return "CONTRACT sort is not a permutation: " + fmt(sorted(self.t, key=lambda e: e[0]))
+                if any(got[i][0] > got[i + 1][0] for i in range(len(got) - 1)):
+                    return "CONTRACT sort is not ascending: " + fmt(sorted(self.t, key=lambda e: e[0]))
+                self.t = got
+        else:
+            return "bad-op"
+        return fmt(self.t)
+
     def array_contract(self, op, v, w, need, contract, impl):
         """capacity contract of Array evaluated on the implementation's line: size <= capacity, storage exists when
         there are elements, capacity() >= what was reserved, no reallocation while the capacity suffices, capacity never
@@ -337,6 +370,24 @@ def sort_histories(maxperm, maxtern):
     for n in range(1, maxtern + 1):
         for p in itertools.product((0, 1, 2), repeat=n):
             hs.append([f"lappend 0 {x}" for x in p] + ["lsort 0"])
+    return hs
+
+
+def tagged_histories(rng, maxlen, nrandom):
+    """every key sequence over {0,1,2} up to maxlen with distinct tags, sorted once and again after one more element;
+    longer random lists with few distinct keys and adversarial shapes"""
+    hs = []
+    for n in range(0, maxlen + 1):
+        for ks in itertools.product((0, 1, 2), repeat=n):
+            hs.append([f"tappend {k} {i}" for i, k in enumerate(ks)] + ["tsort", "tprepend 1 99", "tsort"])
+    for _ in range(nrandom):
+        n = rng.choice([5, 9, 17, 33, 64, 100])
+        d = rng.choice([1, 2, 3, 5, 1000])
+        shape = rng.randrange(4)
+        ks = [rng.randrange(d) for _ in range(n)]
+        if shape == 1: ks.sort()
+        if shape == 2: ks.sort(reverse=True)
+        hs.append(["tclear"] + [f"tappend {k} {i}" for i, k in enumerate(ks)] + ["tsort", "tsort", f"tappend {rng.randrange(d)} {n}", "tsort"])
     return hs
 
 
@@ -447,6 +498,8 @@ def nontrivial(h, out):
     if len(h) < 3 or not out:
         return None
     last = out[-1]
+    if last.startswith("t ") and not last.startswith("t 0 "):
+        return (frozenset(l.split()[0] for l in h), last)
     if last == "bad-op" or " | " not in last:
         return None
     shown = last.split(" | ")[1:]
@@ -469,6 +522,7 @@ def histories_for(ctx, pool_front):
     exp = exhaustive(p_ops, dp) + sampled(p_ops, dp + 1, rng, np_)
     exa = exhaustive(A_OPS, da) + sampled(A_OPS, da + 1, rng, na)
     srt = sort_histories(7 if quick else 8, 8 if quick else 9)
+    tag = tagged_histories(rng, 7 if quick else 10, 300 if quick else 5000)
     grw = growth_histories(rng, 0.05 if quick else 1.0)
     rnd = []
     for _ in range(2000 if quick else 40000):
@@ -486,7 +540,8 @@ def histories_for(ctx, pool_front):
         f"({len(exl)} histories), PoolList length <= {dp} over {len(p_ops)} ops + {np_} of length {dp + 1} ({len(exp)}), "
         f"Array length <= {da} over {len(A_OPS)} ops + {na} of length {da + 1} ({len(exa)}); "
         f"sort: every permutation of length <= {7 if quick else 8} and every {{0,1,2}}-valued list of length <= {8 if quick else 9} ({len(srt)}) "
-        f"+ {len(shapes)} long adversarial shapes; Array growth: initial capacities 0..40 x first growth to sizes 0..44 x second growth at the "
+        f"+ {len(shapes)} long adversarial shapes; List<Tagged> (operator< on the key only, so the arrangement of equal keys exposes the exact "
+        f"swap sequence): every key sequence over {{0,1,2}} of length <= {7 if quick else 10} + random lists to 100 elements ({len(tag)}); Array growth: initial capacities 0..40 x first growth to sizes 0..44 x second growth at the "
         f"boundaries ({len(grw)} histories{', 5% sample' if quick else ''}); {len(rnd)} random histories of 10..300 ops "
         "(value domains {0..2}, -3..6, -50..50, int extremes; ~4% invalid positions).  distinct_nontrivial = distinct (op-kind set, final "
         "observation) among histories with >= 3 ops whose last shown container is non-empty")
@@ -494,7 +549,7 @@ def histories_for(ctx, pool_front):
     ctx.cov["exhaustive_scope"] = (f"all op sequences: List <= {dl} ops over a {len(L_OPS)}-op alphabet, PoolList <= {dp} over {len(p_ops)}, "
                                    f"Array <= {da} over {len(A_OPS)} (one length more sampled); sort: all permutations <= {7 if quick else 8}, "
                                    f"all ternary lists <= {8 if quick else 9}: {len(srt)} inputs")
-    return hs + exl + exp + exa + srt + shapes + grw + rnd
+    return hs + exl + exp + exa + srt + shapes + tag + grw + rnd
 
 
 # ---- multi-process variant of common.differential (the Python reference is the bottleneck under the GIL) -------
@@ -520,6 +575,9 @@ def _work(span):
             op = line.split(" ", 1)[0]
             if out == "bad-op":
                 hit("rejected op (precondition)")
+                continue
+            if op == "tsort":
+                hit("sort of List<Tagged> (arrangement of equal keys compared with the model)")
                 continue
             parts = out.split(" | ")
             hd = parts[0].split(" ")
